@@ -90,6 +90,14 @@ def work_one(job):
                 cands.append(f["alt"])
             if f.get("sxvals") is not None and f.get("sxvals") not in cands:
                 cands.append(f["sxvals"])
+            if f.get("mode") == "euf":
+                # a model of the uninterpreted-operations query fixes no concrete arithmetic: a violation found there is
+                # confirmed on the real build with a few sign/magnitude patterns in the stated domain
+                pats = [[-7, 3, -2.5, 5, -1.5], [7, -3, 2.5, -5, 1.5], [-3, -7, -5, -2, -9], [9, 4, 7, 2, 5], [-0.5, 8, -12, 3, -4], [6, -2.5, -7, 1.5, 11]]
+                for p in pats:
+                    v = [Fraction(p[k % len(p)]) for k in range(len(tpl.vars))]
+                    if v not in cands:
+                        cands.append(v)
             confirmed = False
             why = ""
             for vals in cands:
